@@ -3287,7 +3287,7 @@ class BaseParser:
     def p_testlist_single(self, p):
         """testlist : test COMMA"""
         p1 = p[1]
-        if isinstance(p1, ast.List) or (
+        if isinstance(p1, ast.List | ast.Set) or (
             isinstance(p1, ast.Tuple) and hasattr(p1, "_real_tuple") and p1._real_tuple
         ):
             lineno, col = lopen_loc(p1)
@@ -3303,7 +3303,7 @@ class BaseParser:
                  | test comma_test_list
         """
         p1 = p[1]
-        if isinstance(p1, ast.List) or (
+        if isinstance(p1, ast.List | ast.Set) or (
             isinstance(p1, ast.Tuple) and hasattr(p1, "_real_tuple") and p1._real_tuple
         ):
             lineno, col = lopen_loc(p1)
